@@ -187,6 +187,12 @@ func units(tier string) []mc.Unit {
 	for _, c := range synthCounts() {
 		us = append(us, mc.Unit{Name: fmt.Sprintf("synth:count=%d", c), Params: params{Family: "synth", C: c}})
 	}
+	// ahead: the node is asked about roots it has not recorded yet (it lags behind whoever learnt them elsewhere)
+	for n := 1; n <= 3; n++ { //nolint:mnd
+		for _, w := range words([]string{"b1", "b2"}, n) {
+			us = append(us, mc.Unit{Name: "ahead:bridge:" + strings.Join(w, ","), Params: params{Family: "ahead", Store: sk.Bridge, Prefix: w}})
+		}
+	}
 	gateLen := 2
 	if tier == "thorough" {
 		gateLen = 3
@@ -428,6 +434,8 @@ func run(c *mc.Ctx, u mc.Unit) {
 		runL1(c, p, dir)
 	case "reorg":
 		runReorg(c, p, dir)
+	case "ahead":
+		runAhead(c, p, dir)
 	case "gate":
 		runGate(c, p, dir)
 	case "synth":
@@ -622,6 +630,57 @@ func runReorg(c *mc.Ctx, p params, dir string) {
 	}
 	c.NonTrivial()
 	c.Obs("reorg %s history=%v choices=%v final=%s", p.Store, p.Prefix, c.Choices, histStr(chain))
+}
+
+// ---- ahead: proofs asked under roots the node has not recorded yet ------------------------------------------------
+//
+// A second node that already synced the history tells which exit roots are coming. Before every block the lagging node is
+// asked for the proof of every position under every root it has NOT recorded yet (whatever it answers is ignored: nothing is
+// promised for a root it does not know); after the block every recorded root x position must be served with a proof that
+// folds to the root — an earlier miss must not stick to the node.
+func runAhead(c *mc.Ctx, p params, dir string) {
+	dirA := sk.ScratchDir()
+	defer kit.RemoveScratch(dirA)
+	ahead := sk.Open(sk.Bridge, dirA)
+	defer ahead.Close()
+	chainA := sk.NewChain(sk.Bridge)
+	for _, k := range p.Prefix {
+		if !feedBridges(c, ahead, chainA, 0, map[string]int{"b1": 1, "b2": 2}[k], 0) {
+			return
+		}
+	}
+	ta := exitTree(ahead)
+	var roots []ref.Hash
+	for j := range chainA.Leaves() {
+		r, err := ta.rootAt(uint32(j))
+		if err != nil {
+			c.Failf("exit/no-root-recorded-for-an-appended-leaf", "history %v: no root for index %d: %v", p.Prefix, j, err)
+			return
+		}
+		roots = append(roots, r)
+	}
+	node := sk.Open(sk.Bridge, dir)
+	defer node.Close()
+	chain := sk.NewChain(sk.Bridge)
+	t := exitTree(node)
+	for bi, k := range p.Prefix {
+		for j := len(chain.Leaves()); j < len(roots); j++ {
+			for i := 0; i <= j; i++ {
+				_, _ = t.proof(uint32(i), roots[j])
+				c.Witness("proofs_asked_under_a_root_not_recorded_yet")
+			}
+		}
+		if c.Bool("restart-before-the-block") {
+			node.Restart()
+			t = exitTree(node)
+		}
+		if !feedBridges(c, node, chain, 0, map[string]int{"b1": 1, "b2": 2}[k], 0) {
+			return
+		}
+		checkPairs(c, t, chain.Leaves(), 0, fmt.Sprintf("history %v, roots asked for before they were recorded, after block %d", p.Prefix, bi+1))
+	}
+	c.NonTrivial()
+	c.Obs("ahead history=%v choices=%v", p.Prefix, c.Choices)
 }
 
 // ---- gate: one syncer transaction lands inside a proof query ----------------------------------------------
